@@ -7,18 +7,12 @@ From PLV Require Import Base.PyStr Tok.PState Tok.Tokenizer Parse.Nodes Parse.Pa
      Proofs.ParserMono.
 Import ListNotations.
 
-(** * Argument slots of a context *)
-Definition nargs (sp : cspec) : nat :=
-  match sp_args sp with APStd l => length l | APLegacy _ => 0 end.
-Definition onargs (o : option cspec) : nat := match o with Some sp => nargs sp | None => 0 end.
-Definition specs_max (l : list (str * cspec)) : nat := list_max (map (fun x => nargs (snd x)) l).
-(** the maximal number of argument slots of any specification of the context *)
-Definition max_args (cx : context) : nat :=
-  Nat.max (specs_max (cx_macros cx))
-    (Nat.max (specs_max (cx_envs cx))
-       (Nat.max (specs_max (cx_specials cx))
-          (Nat.max (onargs (cx_unk_macro cx)) (onargs (cx_unk_env cx))))).
+(** * Argument slots of a context
 
+    [nargs], [onargs], [specs_max] and [max_args cx] (the maximal number of
+    argument slots of any specification of the context) are defined in
+    [Parse/Parser.v]: the model's own fuel [parse_fuel s cx] is computed from
+    [max_args cx]. *)
 Lemma assoc_le l k sp : assoc l k = Some sp -> nargs sp <= specs_max l.
 Proof.
   unfold specs_max, list_max. induction l as [|[k' v] l IH]; [discriminate|]. cbn [assoc map snd fold_right].
